@@ -486,8 +486,8 @@ const NUMS: [&str; 21] = [
     "0", "1", "-1", "2", "0.5", " 7 ", "+7", "", "-", "NaN", "inf", "1e999", "2147483647", "2147483648", "-2147483648", "131072",
     "131073", "-131072.5", "9000", "9001", "x",
 ];
-const PATH_TOKENS: [&str; 14] = [
-    "B", "B3", "L", "P", "C", "x", "100:200", "150:200", "200:200", "150:250", "", "1", "1:x", "150.9:200.2",
+const PATH_TOKENS: [&str; 16] = [
+    "B", "B3", "L", "P", "C", "x", "100:200", "150:200", "200:200", "150:250", "", "1", "1:x", "150.9:200.2", "L1", "Px",
 ];
 
 pub fn run(tier: Tier) -> i32 {
@@ -643,7 +643,7 @@ pub fn run(tier: Tier) -> i32 {
                reference parser of the legacy grammar on accept/reject and on every field of the raw object (position truncation, \
                kind precedence, combo flag/offset, forced new combo, repeat count, node count, requested length, durations, control \
                points with types, samples). (1) 256 type bytes x 256 sound bytes; (2) baselines with <= 2/3 deviating fields from a \
-               33-value menu and all truncations; (3) all path token strings of <= 6/7 tokens over 14 tokens, every pair of 36 number classes as head and as path coordinates; (4) node lists x repeat \
+               33-value menu and all truncations; (3) all path token strings of <= 6/7 tokens over 16 tokens, every pair of 36 number classes as head and as path coordinates; (4) node lists x repeat \
                counts. states = lines, evaluations = (line, context, mode) runs; distinct_nontrivial = distinct accepted objects"
             .into(),
         bounds: Value::Object(bounds),
